@@ -150,7 +150,7 @@ func c05Compose(p []kv) string {
 }
 
 func checkC05(c *ev.Ctx) {
-	c.Rule("encoder: complete product 2^4 flags x touch{-1..4} x usage{0,1,2} x ver{0,1,2,65535} x 6 principal lists x jointly varied 5-value string alphabet; decoder: single-field surgeries (delete, 3 case renames, duplicate before/after, retype to null/number/string/array/object/bool-flip) on every field of a generating set of encoder outputs, all flag/touch/ver combinations as texts, a JSON value catalogue, every ordered pair (and triples) of a 17-text set decoded back to back (history independence), byte-substitution neighbourhood of an encoder output, and ALL strings up to length 5 (thorough 6) over a 13-symbol structural alphabet. non-trivial = Marshal succeeded (round-trip checked) or Unmarshal accepted (oracle checked); distinct by text")
+	c.Rule("encoder: complete product 2^4 flags x touch{-1..4} x usage{0,1,2} x ver{0,1,2,65535} x 6 principal lists x jointly varied 5-value string alphabet; decoder: single-field surgeries (delete, 3 case renames, duplicate before/after, retype to null/number/string/array/object/bool-flip) and double surgeries (one field deleted/renamed AND another duplicated or an unknown key added) on every field of a generating set of encoder outputs, all flag/touch/ver combinations as texts, a JSON value catalogue, every ordered pair (and triples) of a 17-text set decoded back to back (history independence), byte-substitution neighbourhood of an encoder output, and ALL strings up to length 5 (thorough 6) over a 13-symbol structural alphabet. non-trivial = Marshal succeeded (round-trip checked) or Unmarshal accepted (oracle checked); distinct by text")
 	c.Assume("valid UTF-8 strings only (encoding/json replaces invalid UTF-8, which the property excludes)", "the independent decode uses encoding/json into map[string]RawMessage")
 	if c.ReplayCase != nil {
 		var k c05Case
@@ -259,6 +259,48 @@ func checkC05(c *ev.Ctx) {
 			}
 		}
 	}
+	// double surgeries: one field deleted or case-renamed AND another one duplicated / retyped (a decoder that counts
+	// names instead of checking each one is fooled only by two deviations at once)
+	dbl := 0
+	for gi, g := range generating {
+		if gi > 3 {
+			break
+		}
+		base := c05Pairs(g)
+		for i := range base {
+			for j := range base {
+				if i == j {
+					continue
+				}
+				for _, variant := range []int{0, 1, 2, 3} {
+					p := append([]kv{}, base...)
+					switch variant {
+					case 0: // delete i, duplicate j
+						p = append(p, kv{base[j].k, base[j].v})
+					case 1: // delete i, duplicate j before
+						p = append([]kv{{base[j].k, base[j].v}}, p...)
+					case 2: // rename i in case, duplicate j
+						p = append(p, kv{strings.ToUpper(base[i].k), base[i].v}, kv{base[j].k, base[j].v})
+					case 3: // delete i, add an unknown key
+						p = append(p, kv{"extra" + base[j].k, "1"})
+					}
+					// remove the original i
+					var q []kv
+					removed := false
+					for _, e := range p {
+						if !removed && e.k == base[i].k {
+							removed = true
+							continue
+						}
+						q = append(q, e)
+					}
+					c05Dec(c, c05Compose(q), fmt.Sprintf("double surgery %d: %s removed, %s duplicated", variant, base[i].k, base[j].k))
+					dbl++
+				}
+			}
+		}
+	}
+	c.Set("double_surgeries", dbl)
 	c.Set("surgeries", surg)
 	// history independence: every ordered pair over {each required field deleted, valid, inconsistent, wrong version, not JSON}
 	// is decoded back to back; the second decode is judged by the same oracle (a decoder that keeps state between calls —
